@@ -249,6 +249,24 @@ static hwloc_topology_t load_topo(const char *spec) {
     cur_topo = t; snprintf(cur_spec, sizeof cur_spec, "%s", spec);
     return t;
   }
+  /* 'b' specs: "<bridge_type value>,<0|1>" = a one-PU XML document with one Bridge carrying that bridge_type attribute (with the PCI
+   * attributes of a PCI-to-PCI bridge when the flag is 1) above one PCI device: an invalid upstream/downstream pair must be refused by
+   * the loader, or the Bridge must print a text that parses back to the very upstream type it holds (C11-r7) */
+  if (spec[0] == 'b') {
+    char bt[96]; int pci = 0; static char doc[3072];
+    if (sscanf((char *) raw, "%95[^,],%d", bt, &pci) != 2) { hwloc_topology_destroy(t); return NULL; }
+    int dl = snprintf(doc, sizeof doc, "<?xml version=\"1.0\" encoding=\"UTF-8\"?>\n<topology version=\"3.0\">\n"
+      "<object type=\"Machine\" os_index=\"0\" cpuset=\"0x1\" complete_cpuset=\"0x1\" allowed_cpuset=\"0x1\" nodeset=\"0x1\" complete_nodeset=\"0x1\" allowed_nodeset=\"0x1\" gp_index=\"1\">\n"
+      "<object type=\"NUMANode\" os_index=\"0\" cpuset=\"0x1\" complete_cpuset=\"0x1\" nodeset=\"0x1\" complete_nodeset=\"0x1\" gp_index=\"2\" local_memory=\"1024\"/>\n"
+      "<object type=\"PU\" os_index=\"0\" cpuset=\"0x1\" complete_cpuset=\"0x1\" nodeset=\"0x1\" complete_nodeset=\"0x1\" gp_index=\"4\"/>\n"
+      "<object type=\"Bridge\" gp_index=\"5\" bridge_type=\"%s\" depth=\"0\" bridge_pci=\"0000:[00-01]\"%s>\n"
+      "<object type=\"PCIDev\" gp_index=\"6\" pci_busid=\"0000:01:00.0\" pci_type=\"0200 [8086:10d3] [0000:0000] 00 00\" pci_link_speed=\"0.000000\"/>\n"
+      "</object>\n</object>\n</topology>\n", bt,
+      pci ? " pci_busid=\"0000:00:01.0\" pci_type=\"0604 [8086:3c03] [0000:0000] 07 00\" pci_link_speed=\"0.000000\"" : "");
+    if (hwloc_topology_set_xmlbuffer(t, doc, dl + 1) < 0 || hwloc_topology_load(t) < 0) { hwloc_topology_destroy(t); return NULL; }
+    cur_topo = t; snprintf(cur_spec, sizeof cur_spec, "%s", spec);
+    return t;
+  }
   char *bar = spec[0] == 'g' ? strchr((char *) raw, '|') : NULL;
   if (bar) *bar++ = 0;
   int err = (spec[0] == 's' || spec[0] == 'g') ? hwloc_topology_set_synthetic(t, (char *) raw) : hwloc_topology_set_xml(t, (char *) raw);
@@ -672,6 +690,18 @@ static void gen_random(unsigned long nops, unsigned part) {
       put_spec(spec, sizeof spec, 'c', rawspec);
       gen_topology(spec, 8);
       stat_hit("cache_catalogue_docs");
+    } }
+  /* bridge catalogue: upstream x downstream type numbers (valid, out of range, negative, beyond int / unsigned), with and without the
+   * PCI attributes, spread over the parts */
+  { static const char *up[] = { "0", "1", "2", "3", "-1", "-2", "4294967295", "2147483648", "4294967296", "99999999999999999999", "+0", " 1", "0x1", "" };
+    static const char *down[] = { "1", "0", "2", "-1", "4294967297" };
+    unsigned k = 0;
+    for (unsigned a = 0; a < sizeof up / sizeof *up; a++) for (unsigned b = 0; b < sizeof down / sizeof *down; b++) for (int pci = 0; pci <= 1; pci++, k++) {
+      if (k % 6 != part % 6) continue;
+      char rawspec[128]; snprintf(rawspec, sizeof rawspec, "%s-%s,%d", up[a], down[b], pci);
+      put_spec(spec, sizeof spec, 'b', rawspec);
+      gen_topology(spec, 8);
+      stat_hit("bridge_catalogue_docs");
     } }
   const char *dir = getenv("VERIF_XMLDIR");
   if (dir) {
